@@ -50,7 +50,7 @@ def run_call(ns, fname, args, global_names=("GLOBAL_COUNTER", "GLOBAL_FLAG", "MO
         with contextlib.redirect_stdout(buf):
             o.value = ns[fname](*args)
         o.kind, o.exc_type, o.exc_msg = "ret", None, None
-    except Exception as e:  # noqa: BLE001
+    except (Exception, V.Cancelled) as e:  # noqa: BLE001  (Cancelled: the corpus' own BaseException that is not an Exception)
         o.kind, o.value, o.exc_type, o.exc_msg = "exc", None, type(e).__name__, str(e)
         tb = e.__traceback__
         while tb is not None:
